@@ -225,4 +225,4 @@ def run(ctx):
         ctx.include("C20.5", "the cut itself cannot fail: the propagation loops contain no integer division by a possibly-zero value (shared with C01.14, MIR)", lambda c: c01.rule_division_asserts(c, "C01.14", only_file="control_flow_graph/cfg.rs"))
     rule_seeds(ctx)
     ctx.include("C20.3", "every value fact is derived from known operand facts (C06.1-C06.5 shared): pessimistic merge, operand discipline, versioned names only", c06.rule_operator_table, c06.rule_switch_phi, lambda c: opdisc.rule_values(c, "C06.3"), c06.rule_environment, c06.rule_literals)
-    ctx.include("C20.4", "every degree fact is an upper bound derived from known operand facts (C07.1-C07.3 shared): transfer tables, operand discipline, seeds", c07.rule_tables, lambda c: opdisc.rule_degrees(c, "C07.2"), c07.rule_env)
+    ctx.include("C20.4", "every degree fact is an upper bound derived from known operand facts (C07.1-C07.3 shared): transfer tables, operand discipline, seeds", c07.rule_tables, lambda c: opdisc.rule_degrees(c, "C07.2"), lambda c: c07.eval_array_arms(c, "C07.2"), c07.rule_env)
